@@ -189,6 +189,22 @@ class Terms:
             return ("const?", o.get("dbg", ""), pp.ty(o["ty"]))
         return ("op?",)
 
+    def operand_is_float(self, o):
+        if o.get("k") == "const":
+            return o.get("ty", {}).get("k") == "float"
+        if o.get("k") in ("copy", "move"):
+            p = o["p"]
+            ty = self.body.locals[p["l"]]["ty"]
+            for e in p["pr"]:
+                if e["k"] == "field":
+                    ty = e["ty"]
+                elif e["k"] == "deref" and ty.get("k") in ("ref", "ptr"):
+                    ty = ty["t"]
+                else:
+                    return False
+            return ty.get("k") == "float"
+        return False
+
     def rvalue(self, rv):
         k = rv["k"]
         if k == "use":
@@ -205,6 +221,8 @@ class Terms:
         if k == "cast":
             return ("cast", rv["ck"], self.operand(rv["o"]), pp.ty(rv["ty"]))
         if k == "binop":
+            if self.operand_is_float(rv["a"]) or self.operand_is_float(rv["b"]):
+                return ("bin", rv["op"], self.operand(rv["a"]), self.operand(rv["b"]), "f")
             return ("bin", rv["op"], self.operand(rv["a"]), self.operand(rv["b"]))
         if k == "unop":
             if rv["op"] == "PtrMetadata":
